@@ -292,6 +292,9 @@ func (x *world) runCase(res *Result, sub int64, k *conc, concrete any, c *Case) 
 		for q := range predicted {
 			res.FiredSilent[q]++
 		}
+		if len(predicted) > 0 && res.Aux["sample_of_a_case_in_which_a_quirk_fires_in_the_model_and_the_answer_is_the_definition_s"] == nil {
+			res.Aux["sample_of_a_case_in_which_a_quirk_fires_in_the_model_and_the_answer_is_the_definition_s"] = map[string]any{"abstract": c, "concrete_database": concrete, "request": st, "expected": exp, "as_coded": coded}
+		}
 		x.W.Bridge.Drain()
 		return
 	}
@@ -303,9 +306,12 @@ func (x *world) runCase(res *Result, sub int64, k *conc, concrete any, c *Case) 
 	}
 	for _, tr := range c.Db {
 		score += 20 * len(tr)
-		for _, s := range tr {
+		for si, s := range tr {
 			if s.Tk != 2 {
 				score += 15
+			}
+			if (si == 0) != (s.Par == 0) {
+				score += 30 // not the plain tree: root first, then its children
 			}
 		}
 	}
